@@ -87,9 +87,115 @@ theorem eof_enters_md_wait (src : Bytes) (ct : ChecksumType) (fs0 : Fs.FS) (r : 
   · show z.nakReceived = _; rw [← hz, ← hy, ← hq]; rfl
   · show z.received = _; rw [← hz, ← hy, ← hq]; rfl
 
+/-- **the EOF enters the Metadata loop**: after the ACK of the EOF and the NAK carrying the 0-0 marker have gone out, the
+receiver is in the starting state of `C02_lost_metadatas_round` -/
+theorem eof_enters_md_loop {mx Ta Ti Tn : Nat} (src : Bytes) (ct : ChecksumType) (fs0 : Fs.FS) (r : Recv.State) (t0 t j : Nat)
+    (p : Pdu) (e : Eof)
+    (hmode : r.cfg.mode = .Acknowledged) (hact : r.state = .Active) (hrd : r.recvState = .ReceiveData)
+    (hmd : r.md = none) (hdata : DataOk src r)
+    (hcomp : Seg.isComplete r.segs src.length = true) (hfs : r.fs = fs0) (hdl : r.cfg.delay = 0)
+    (hpr : r.prompt = none) (hdel : r.delayed = []) (hrt : RT mx Ta Ti Tn r.timer) (hmax : 0 < mx)
+    (hroom : (r.nakReceived == r.received) = false ∨ (r.timer.nak.update t).count ≠ r.timer.nak.max)
+    (hj : (if (r.nakReceived == r.received) then (r.timer.nak.update t).count else 0) ≤ j)
+    (hp : p.payload = .eof e) (he1 : e.cond = .NoError) (he2 : e.fileSize = src.length)
+    (he3 : e.checksum = fileChecksum ct src) :
+    MW src ct fs0 (eofFlush r t0 t p).1 ∧ WN mx Ta Ti Tn (eofFlush r t0 t p).1 ∧ (eofFlush r t0 t p).1.segs = r.segs ∧
+    NB t j (eofFlush r t0 t p).1 ∧ IB Ti t0 (max t0 t) (eofFlush r t0 t p).1.timer.inactivity := by
+  obtain ⟨w1, w2, w3, ⟨a, w4⟩, w5, w6, w7, w8, w9⟩ :=
+    eof_enters_md_wait src ct fs0 r t0 p e hmode hact hrd hmd hdata hcomp hfs hdl hp he1 he2 he3
+  generalize hr1 : recvStep r t0 (.pdu p) = r1 at w1 w2 w3 w4 w5 w6 w7 w8 w9
+  have hwf : eofFlush r t0 t p = recvN (r1.naks.length + 1) r1 t := by unfold eofFlush; rw [hr1]
+  rw [hwf]
+  simp only [recvN]
+  -- the ACK of the EOF
+  have hs1 := recv_sends_ack_eof r1 t a w1.act w1.rd (by rw [w5]; exact hpr) w4
+  generalize hr2 : recvStep r1 t .send = r2 at hs1
+  have hk3 : (clrR r1).ack = some a := w4
+  have e2 : r2 = Recv.sendPayload { clrR r1 with ack := none } (.ack a) := by
+    rw [hs1]; simp only [Recv.sendAckEof, hk3]
+  have r2naks : r2.naks = r1.naks := by rw [hs1, Recv.naks_sendAckEof]; rfl
+  have r2timer : r2.timer = r1.timer := by rw [hs1, Recv.timer_sendAckEof]; rfl
+  have r2same : SameData r2 r1 := by
+    rw [hs1]
+    exact ⟨by rw [cfg_sendAckEof]; rfl, by rw [state_sendAckEof]; rfl, by rw [recvState_sendAckEof]; rfl,
+      by rw [md_sendAckEof]; rfl, by rw [fileSize_sendAckEof]; rfl, by rw [checksum_sendAckEof]; rfl,
+      by rw [condition_sendAckEof]; rfl, by rw [segs_sendAckEof]; rfl, by rw [tempFile_sendAckEof]; rfl,
+      by rw [fs_sendAckEof]; rfl⟩
+  have r2rg : MW src ct fs0 r2 := mw_of_same w1 r2same
+  have hrt1 : RT mx Ta Ti Tn r1.timer := by rw [w7]; exact ⟨hrt.ack, cq_reset hrt.inactivity t0, hrt.nak⟩
+  have r2nq : NQ mx Ta Ti Tn t r2 := by
+    refine ⟨r2rg.act, r2rg.rd, ?_, ?_, by rw [r2timer]; exact hrt1, ?_⟩
+    · rw [hs1, Recv.prompt_sendAckEof]; show r1.prompt = none; rw [w5]; exact hpr
+    · rw [e2, Recv.ack_sendPayload]
+    · unfold NakRoom
+      have hnr : r2.nakReceived = r.nakReceived := by rw [hs1, nakReceived_sendAckEof]; show r1.nakReceived = _; exact w8
+      have hrc : r2.received = r.received := by rw [hs1, received_sendAckEof]; show r1.received = _; exact w9
+      have hnk : r2.timer.nak = r.timer.nak := by rw [r2timer, w7]
+      rw [hnr, hrc, hnk]
+      refine ⟨by rw [hrt.nak.2.2.1]; exact hmax, ?_⟩
+      rcases hroom with h | h
+      · exact Or.inl h
+      · right; rw [max_update]; exact h
+  have r2len : r1.naks.length = r2.naks.length := by rw [r2naks]
+  rw [r2len]
+  obtain ⟨f1, f2, f3, _, _⟩ := recv_flushes_naks r2.naks.length r2 t r2nq (Nat.le_refl _)
+  have hd2 : r2.delayed = [] := by rw [hs1, delayed_sendAckEof]; show r1.delayed = []; rw [w6]; exact hdel
+  -- the queue is not empty
+  have hne : r2.naks ≠ [] := by
+    rw [r2naks, w3]
+    have : r1.md = none := w1.md
+    simp only [getAllNaks, this, Option.isNone_none, if_true, List.cons_append, List.nil_append]
+    exact List.cons_ne_nil _ _
+  have hnr2 : r2.nakReceived = r.nakReceived := by rw [hs1, nakReceived_sendAckEof]; show r1.nakReceived = _; exact w8
+  have hrc2 : r2.received = r.received := by rw [hs1, received_sendAckEof]; show r1.received = _; exact w9
+  have hnk2 : r2.timer.nak = r.timer.nak := by rw [r2timer, w7]
+  have hnc : NC t (if (r.nakReceived == r.received) then (r.timer.nak.update t).count else 0) (recvN r2.naks.length r2 t).1 ∧
+      (recvN r2.naks.length r2 t).1.received = r2.received := by
+    cases hl : r2.naks.length with
+    | zero => exact absurd (List.eq_nil_of_length_eq_zero hl) hne
+    | succ k =>
+      simp only [recvN]
+      obtain ⟨n1, n2⟩ := nc_first r2 t r2nq hne
+      rw [hnr2, hrc2, hnk2] at n1
+      obtain ⟨b1, b2⟩ := nc_recvN k _ t _ (recv_sends_nak _ t r2nq hne).1 n1
+      exact ⟨b1, b2.trans n2⟩
+  have hin : (recvN r2.naks.length r2 t).1.timer.inactivity = r2.timer.inactivity := inact_recvN _ _ t r2nq
+  refine ⟨mw_of_same r2rg f3, ⟨f2.pr, f2.ack, f2.rt, by rw [delayed_recvN]; exact hd2, f1⟩,
+    (f3.2.2.2.2.2.2.2.1.trans r2same.2.2.2.2.2.2.2.1).trans w2,
+    ⟨hnc.1.start, hnc.1.run, by rw [hnc.1.count]; exact hj, by rw [hnc.1.seen]; exact Nat.le_refl _⟩, ?_⟩
+  rw [hin, r2timer, w7]
+  exact ⟨by show 0 * Ti ≤ t0 - t0; omega, Nat.le_refl _, Nat.le_max_left _ _⟩
+
+/-- **C02 (from the EOF on, the Metadata PDU lost again and again).**  A receiver holding every byte of the file but no
+Metadata gets the truthful EOF at `t0` and transmits the ACK and its NAK at `t`; the Metadata PDU the sender repeats is
+lost again and again: as long as the NAK-timer expiries counted from `t` stay below the limits (`FairT`), each is
+followed by NAKs carrying the 0-0 marker, and when one of them reaches the sender the Metadata PDU it transmits
+completes the delivery: Finished / NoError / Complete / Retained. -/
+theorem C02_from_eof_lost_metadatas {mx Ta Ti Tn : Nat} (s : Send.State) (r : Recv.State) (t0 t j ts1 t' : Nat) (p : Pdu)
+    (e : Eof) (ts : List Nat) (fs0 : Fs.FS)
+    (hs : SQ s.st s) (hsn : s.md.srcName.isEmpty = false)
+    (hmode : r.cfg.mode = .Acknowledged) (hact : r.state = .Active) (hrd : r.recvState = .ReceiveData)
+    (hmd : r.md = none) (hdata : DataOk s.file r)
+    (hcomp : Seg.isComplete r.segs s.file.length = true) (hfs : r.fs = fs0) (hdl : r.cfg.delay = 0)
+    (hpr : r.prompt = none) (hdel : r.delayed = []) (hrt : RT mx Ta Ti Tn r.timer) (hmax : 0 < mx)
+    (hroom : (r.nakReceived == r.received) = false ∨ (r.timer.nak.update t).count ≠ r.timer.nak.max)
+    (hj : (if (r.nakReceived == r.received) then (r.timer.nak.update t).count else 0) ≤ j)
+    (hp : p.payload = .eof e) (he1 : e.cond = .NoError) (he2 : e.fileSize = s.file.length)
+    (he3 : e.checksum = fileChecksum s.md.cksumType s.file)
+    (hf : FairT mx Tn Ti t j t0 ts) (hne : ts ≠ [])
+    (hfsw : (fs0.writeFile (Fs.relOf s.md.dstName) s.file).isSome = true) :
+    ∃ q ∈ (mdRounds (eofFlush r t0 t p).1 ts).2,
+      ∃ pdu ∈ (sendN (sendStep s ts1 (.pdu q)).naks.length (sendStep s ts1 (.pdu q)) ts1).2,
+        FG (recvStep (mdRounds (eofFlush r t0 t p).1 ts).1 t' (.pdu pdu)) := by
+  obtain ⟨a1, a2, _, a4, a5⟩ := eof_enters_md_loop s.file s.md.cksumType fs0 r t0 t j p e hmode hact hrd hmd hdata hcomp hfs
+    hdl hpr hdel hrt hmax hroom hj hp he1 he2 he3
+  exact C02_lost_metadatas_round s _ ts t j t0 ts1 t' fs0 hs hsn a1 a2 hmax a4 a5 hf hne hfsw
+
 end Cfdp.Loop
 
 #print axioms Cfdp.Loop.eof_enters_md_wait
+#print axioms Cfdp.Loop.eof_enters_md_loop
+#print axioms Cfdp.Loop.C02_from_eof_lost_metadatas
 #print axioms Cfdp.Seg.C02_round_completes
 #print axioms Cfdp.Seg.C02_gaps_answered
 #print axioms Cfdp.Recv.C02_finishes_when_complete
